@@ -255,7 +255,7 @@ def run_shard(spec, ctx):
     core.enum_shard(core.sliced(alias_cases(all_shapes=not ctx.quick), ctx.index, ctx.nshards), check_case, ctx, rec=rec)
     if rec.violations:
         return rec
-    n = max(16, int(ctx.pick(640, 8500) * _SCALE))
+    n = max(16, int(ctx.pick(640, 7500) * _SCALE))
     small = n // 2
     core.hyp_shard(case_strategy(4, 25), check_case, ctx, small, rec=rec, tag="small")
     if rec.violations:
